@@ -60,4 +60,26 @@ def histGs (j : Json) : R Json := do
   let calls ← listOf (listOf (listOf ratOfJson)) (← fld j "batches")
   pure (ratsJ (gsCall st { cnt := 3, sum := 7, sq := 11 } calls).2)
 
+def ruleOfString (s : String) : R Rule :=
+  match s with
+  | "plain" => pure .plain | "deconv" => pure .deconv | "guided" => pure .guided
+  | _ => throw "bad-op"
+def ruleJ : Rule → Json
+  | .plain => Json.str "plain" | .deconv => Json.str "deconv" | .guided => Json.str "guided"
+
+/-- op "hist_override": the user's model has one layer object per entry of "relu" (all routed to the plain rule);
+"steps" are the rules of successive DeconvNet / GuidedBackprop constructions on it. Returns, at the end of the history,
+the number of layer objects each clone shares with the user's model, the rules of the user's ReLU sites and the rules
+of every clone's ReLU sites -/
+def histOverride (j : Json) : R Json := do
+  let relu ← listOf boolOfJson (← fld j "relu")
+  let steps ← listOf (fun v => do ruleOfString (← v.getStr?)) (← fld j "steps")
+  let h0 : Heap := relu.map fun b => { relu := b, rule := .plain }
+  let m : LModel := List.range relu.length
+  let r := overrideAll h0 (steps.map fun s => (m, s))
+  pure (Json.mkObj [
+    ("shared", natsJ (r.2.map fun c => (c.filter fun i => m.contains i).length)),
+    ("user_rules", Json.arr ((rulesOf r.1 m).map ruleJ).toArray),
+    ("clone_rules", Json.arr (r.2.map fun c => Json.arr ((rulesOf r.1 c).map ruleJ).toArray).toArray)])
+
 end Xp.Ops
